@@ -14,7 +14,7 @@
 namespace verif {
 struct Sched {
     enum St { RUN, BLK_MUTEX, PARKED, JOINING, BLK_PRED, FIN };
-    struct T { St st = RUN; const void *on = nullptr; int joining = -1; std::function<bool()> pred; };
+    struct T { St st = RUN; const void *on = nullptr; int joining = -1; std::function<bool()> pred; bool timed = false; bool woken = false; };
     std::mutex G;
     std::condition_variable cv;
     std::vector<T> ts;
@@ -54,6 +54,7 @@ struct Sched {
     bool enabled(int i) {
         T &t = ts[i];
         if (t.st == RUN) return true;
+        if (t.st == PARKED && t.timed) return true;        // a timed wait may time out at any moment
         if (t.st == BLK_PRED) return t.pred && t.pred();
         return false;
     }
@@ -92,6 +93,7 @@ struct Sched {
         if (r.empty()) deadlock();
         int n = choose(r, "pt");
         if (ts[n].st == BLK_PRED) { ts[n].st = RUN; ts[n].pred = nullptr; }
+        if (ts[n].st == PARKED && ts[n].timed) { ts[n].st = RUN; ts[n].woken = false; log("timeout " + std::to_string(n)); }
         cur = n; cv.notify_all();
         cv.wait(lk, [&] { return cur == me; });
     }
@@ -161,11 +163,40 @@ struct CondVar {
         l.lock();   // the woken thread re-acquires the mutex (a scheduling point of its own)
     }
     template<class L, class P> void wait(L &l, P p) { while (!p()) wait(l); }
+    // timed waits: the timeout is a scheduling choice (it may fire at any moment while the thread is parked)
+    template<class L, class Rep, class Period> std::cv_status wait_for(L &l, const std::chrono::duration<Rep, Period> &) {
+        auto &s = Sched::I();
+        if (!s.active) return std::cv_status::no_timeout;
+        { std::unique_lock<std::mutex> lk(s.G); s.switch_locked(lk); }
+        tl_quiet_unlock = true; l.unlock(); tl_quiet_unlock = false;
+        bool timedOut;
+        {
+            std::unique_lock<std::mutex> lk(s.G);
+            auto &me = s.ts[Sched::me];
+            me.st = Sched::PARKED; me.on = this; me.timed = true; me.woken = false;
+            s.log("park " + std::to_string(Sched::me) + " c" + std::to_string(s.objId(this)));
+            s.switch_locked(lk);
+            timedOut = !s.ts[Sched::me].woken;
+            s.ts[Sched::me].timed = false;
+        }
+        l.lock();
+        return timedOut ? std::cv_status::timeout : std::cv_status::no_timeout;
+    }
+    template<class L, class Rep, class Period, class P> bool wait_for(L &l, const std::chrono::duration<Rep, Period> &d, P p) {
+        while (!p()) { if (wait_for(l, d) == std::cv_status::timeout) return p(); }
+        return true;
+    }
+    template<class L, class Clock, class Dur> std::cv_status wait_until(L &l, const std::chrono::time_point<Clock, Dur> &) {
+        return wait_for(l, std::chrono::seconds(1));
+    }
+    template<class L, class Clock, class Dur, class P> bool wait_until(L &l, const std::chrono::time_point<Clock, Dur> &, P p) {
+        return wait_for(l, std::chrono::seconds(1), p);
+    }
     void notify_all() {
         auto &s = Sched::I(); if (!s.active) return;
         std::unique_lock<std::mutex> lk(s.G); s.switch_locked(lk);
         std::string w;
-        for (int i = 0; i < (int) s.ts.size(); i++) if (s.ts[i].st == Sched::PARKED && s.ts[i].on == this) { s.ts[i].st = Sched::RUN; w += " " + std::to_string(i); }
+        for (int i = 0; i < (int) s.ts.size(); i++) if (s.ts[i].st == Sched::PARKED && s.ts[i].on == this) { s.ts[i].st = Sched::RUN; s.ts[i].woken = true; w += " " + std::to_string(i); }
         s.log("notify " + std::to_string(Sched::me) + " c" + std::to_string(s.objId(this)) + " all" + w);
     }
     void notify_one() {
@@ -174,7 +205,7 @@ struct CondVar {
         std::vector<int> w;
         for (int i = 0; i < (int) s.ts.size(); i++) if (s.ts[i].st == Sched::PARKED && s.ts[i].on == this) w.push_back(i);
         std::string ws;
-        if (!w.empty()) { int n = s.choose(w, "pw"); s.ts[n].st = Sched::RUN; ws = " " + std::to_string(n); }
+        if (!w.empty()) { int n = s.choose(w, "pw"); s.ts[n].st = Sched::RUN; s.ts[n].woken = true; ws = " " + std::to_string(n); }
         s.log("notify " + std::to_string(Sched::me) + " c" + std::to_string(s.objId(this)) + " one" + ws);
     }
 };
@@ -206,6 +237,7 @@ struct Thread {
                 }
                 int n = s.choose(r, "pt");
                 if (s.ts[n].st == Sched::BLK_PRED) { s.ts[n].st = Sched::RUN; s.ts[n].pred = nullptr; }
+                if (s.ts[n].st == Sched::PARKED && s.ts[n].timed) { s.ts[n].st = Sched::RUN; s.ts[n].woken = false; s.log("timeout " + std::to_string(n)); }
                 s.cur = n; s.cv.notify_all();
             }
         }, std::forward<F>(f), std::forward<A>(a)...);
